@@ -2,7 +2,7 @@
 from hypothesis import strategies as st
 
 LINKS = ["await_coro", "await_gencoro", "await_obj_wrapper", "await_obj_gen", "yield_from_gen",
-         "async_for", "asend", "anext", "athrow", "aclose", "in_aexit", "in_with_body", "in_aexit_delself",
+         "async_for", "asend", "anext", "athrow", "aclose", "in_aexit", "in_with_body", "in_aexit_delself", "tbhide0", "tbhide1", "tbhide2",
          # asend(VALUE) into a running async generator; VALUE = suspended async generator / generator / coroutine /
          # an object with generator-like attributes / an int
          "asend_val0", "asend_val1", "asend_val2", "asend_val3", "asend_val4",
